@@ -6,6 +6,7 @@
    The case analyses on the lead byte are done once per reader, in the elimination
    lemmas [*_inv] (one comparison at a time); every later proof applies them. *)
 From FF Require Import model.Bytes model.Msgp proofs.Bytes_Proofs.
+From FF Require Import proofs.Take_Proofs.
 From Coq Require Import Lia ZifyN ZifyNat ZifyBool.
 Open Scope N_scope.
 
@@ -71,7 +72,7 @@ Qed.
 
 Lemma take_suffix k bs h t : take k bs = Ok (h, t) -> bs = h ++ t /\ len h = k.
 Proof.
-  unfold take. destruct (N.leb_spec k (len bs)) as [L|L]; [|discriminate].
+  rewrite !take_unfold. destruct (N.leb_spec k (len bs)) as [L|L]; [|discriminate].
   intros E; inversion E; subst; clear E. split.
   - symmetry; apply firstn_skipn.
   - unfold len in *. rewrite firstn_length. lia.
@@ -104,15 +105,15 @@ Proof. now exists c. Qed.
 Lemma take_ok k bs h t : take k bs = Ok (h, t) ->
   k <= len bs /\ h = firstn (N.to_nat k) bs /\ t = skipn (N.to_nat k) bs.
 Proof.
-  unfold take. destruct (N.leb_spec k (len bs)) as [L|L]; [|discriminate].
+  rewrite !take_unfold. destruct (N.leb_spec k (len bs)) as [L|L]; [|discriminate].
   intros E; inversion E; subst; auto.
 Qed.
 
 Lemma take_intro k bs : k <= len bs -> take k bs = Ok (firstn (N.to_nat k) bs, skipn (N.to_nat k) bs).
-Proof. unfold take. destruct (N.leb_spec k (len bs)) as [L|L]; [reflexivity|lia]. Qed.
+Proof. rewrite !take_unfold. destruct (N.leb_spec k (len bs)) as [L|L]; [reflexivity|lia]. Qed.
 
 Lemma take_res k bs : (exists h t, take k bs = Ok (h, t)) \/ take k bs = Err EShort.
-Proof. unfold take. destruct (k <=? len bs); eauto. Qed.
+Proof. rewrite !take_unfold. destruct (k <=? len bs); eauto. Qed.
 
 Lemma rd_be_res k bs : (exists n t, rd_be k bs = Ok (n, t)) \/ rd_be k bs = Err EShort.
 Proof.
@@ -744,9 +745,9 @@ Ltac nf_tac :=
   end.
 
 Lemma np_take k bs : np (take k bs).
-Proof. unfold take. np_tac. Qed.
+Proof. rewrite !take_unfold. np_tac. Qed.
 Lemma nf_take k bs : nf (take k bs).
-Proof. unfold take. nf_tac. Qed.
+Proof. rewrite !take_unfold. nf_tac. Qed.
 #[export] Hint Resolve np_take : np.
 #[export] Hint Resolve nf_take : nf.
 Lemma np_rd_be k bs : np (rd_be k bs).
